@@ -594,6 +594,8 @@ def c03(ctx):
                                             props=["Converges"], inv=[])),
         ("c03_dev_escape", "BootFailureHalts", dict(MaxFaults=2, MaxSigs=0, Statuses={"b3"}, Dev={"HaltEscapes"},
                                                     props=["BootFailureHalts"], inv=[])),
+        ("c03_dev_reapone", "NoZombieAtRest", dict(MaxFaults=2, MaxSigs=0, Statuses={"err"}, Dev={"ReapOnlyOne"},
+                                                   inv=["NoZombieAtRest"])),
     ]
     if not ctx.quick:
         design.append(("c03_big", dict(MaxForks=6, MaxFaults=2, MaxSigs=2, Statuses={"ok", "b3"}, inv=SAFETY,
